@@ -22,8 +22,35 @@ EXPLANATION = (
 NOT_DECIDED = ["panics inside syn / quote / proc-macro2 on well-typed calls (trusted base)", "stack overflow on pathologically deep input", "arithmetic overflow of usize counters"]
 
 
+def norm_detail(d):
+    """Site text used in keys: closure arguments and explicit `.iter()` steps are dropped (renaming a closure parameter or borrowing the
+    collection instead of holding its iterator is the same site)."""
+    out, i, n = [], 0, len(d)
+    while i < n:
+        ch = d[i]
+        if ch == "|" and (i == 0 or d[i - 1] in "(, ") and (i == 0 or d[i - 1] != "|"):
+            # closure argument: skip to the end of the enclosing argument (matching parenthesis depth)
+            depth, j = 0, i
+            while j < n:
+                if d[j] in "([{":
+                    depth += 1
+                elif d[j] in ")]}":
+                    if depth == 0:
+                        break
+                    depth -= 1
+                elif d[j] == "," and depth == 0 and j > i + 1 and d.count("|", i, j) >= 2:
+                    break
+                j += 1
+            out.append("|_|..")
+            i = j
+            continue
+        out.append(ch)
+        i += 1
+    return "".join(out).replace(".iter()", "").replace(".into_iter()", "")
+
+
 def site_key(fi, s, ordinal):
-    return f"{fi.qual}:{s['detail'][:70]}" + (f"#{ordinal}" if ordinal else "")
+    return f"{fi.qual}:{norm_detail(s['detail'])[:70]}" + (f"#{ordinal}" if ordinal else "")
 
 
 def subcase(dec):
@@ -110,7 +137,7 @@ def w_ghost_groups(chk):
     ok = 'group_paths.insert("".into(),0)' in src and "res.1.then_some(res.0)" in src and "FieldData::GhostData(x)" in src and "x.get_child_path_str(None)" in src
     if ok:
         return True
-    if 'group_paths.insert("".into(),0)' not in src and "FieldData::GhostData(" in src and re.search(r'insert\(""', src) is None:
+    if "FieldData::GhostData(" in src and re.search(r"insert\([^;]{0,40},0\)", src) is None and "contains_key" not in src and ".get(" not in src:
         return False  # the root group "" is no longer pre-seeded: a ghost without child path opens a group and is unwrapped
     return None
 
@@ -487,7 +514,7 @@ def run_quick(chk):
             standalone = None
             for s in sites_of(fi):
                 nsites += 1
-                base = f"{fi.qual}:{s['detail'][:70]}"
+                base = f"{fi.qual}:{norm_detail(s['detail'])[:70]}"
                 o = ords.get(base, 0)
                 ords[base] = o + 1
                 key = site_key(fi, s, o)
